@@ -18,7 +18,8 @@ RULE = ("A history (2-20 operations, one shrinkable list) over {train(), eval(),
         "and moves the running statistics by r <- (1-m) r + m stat (variance convention read off the first update and then "
         "held), eval forward uses running statistics and changes nothing, inverse raises InverseNotAvailable in training and "
         "is the exact inverse of eval forward in eval. Outputs, log-dets and state_dict are compared after EVERY step "
-        "(1e-9). Each forward/inverse runs with autograd on or inside torch.no_grad(); batch scales 3 .. 1e-5 (float64), offsets up to -1000. "
+        "(1e-9). Forward passes also arrive through Flow.transform_to_noise of a training-mode flow wrapped around the layer (the layer keeps "
+        "its own mode). Each forward/inverse runs with autograd on or inside torch.no_grad(); batch scales 3 .. 1e-5 (float64), offsets up to -1000. "
         "Non-trivial: a training forward followed later by a mode switch or save/load and another call.")
 ASSUMPTIONS = ["training-mode batches have >= 2 rows with non-constant columns", "no optimiser step is generated (parameters "
                "only change through the documented initialisation / running-statistics rule)"]
@@ -31,9 +32,9 @@ def budget(tier):
 
 @st.composite
 def _op(draw):
-    k = draw(st.sampled_from(["train", "eval", "forward", "forward", "forward", "inverse", "save_load", "deepcopy"]))
+    k = draw(st.sampled_from(["train", "eval", "forward", "forward", "forward", "inverse", "save_load", "deepcopy", "flow_noise"]))
     op = {"op": k}
-    if k in ("forward", "inverse"):
+    if k in ("forward", "inverse", "flow_noise"):
         op["seed"] = draw(st.integers(0, 1000))
         op["rows"] = draw(st.sampled_from([1, 2, 3, 4, 6]))    # 1 row: legal for 4-D ActNorm batches (statistics over H*W pixels)
         op["scale"] = draw(st.sampled_from([1.0, 3.0, 0.2, 1e-3, 1e-4, 1e-5]))     # tiny natural scales: float64 cases only (see _batch)
@@ -111,7 +112,22 @@ def _run_case(case):
         for step, op in enumerate(case["ops"]):
             torch.set_grad_enabled(True)
             k = op["op"]
-            hist.append(k + ("" if k not in ("forward", "inverse") else ("(T)" if training else "(E)") + ("[no_grad]" if op.get("nograd") else "")))
+            # "flow_noise": the same forward pass, reached through Flow.transform_to_noise of a (training-mode) flow wrapped around the
+            # layer - whose own mode may differ from the flow's and must stay what it is
+            via_flow = k == "flow_noise"
+            if via_flow:
+                k = "forward"
+
+            def fwd(x_):
+                if not via_flow:
+                    return subj(x_)
+                from nflows.flows import Flow
+                from nflows.distributions import StandardNormal
+                probe = copy.deepcopy(subj)
+                flow_ = Flow(subj, StandardNormal(list(x_.shape[1:])))
+                y_ = flow_.transform_to_noise(x_)
+                return y_, probe(x_)[1]
+            hist.append(("flow_noise:" if via_flow else "") + k + ("" if k not in ("forward", "inverse") else ("(T)" if training else "(E)") + ("[no_grad]" if op.get("nograd") else "")))
             if k == "train":
                 subj.train()
                 training = True
@@ -141,7 +157,7 @@ def _run_case(case):
                     hw = (x.shape[2] * x.shape[3]) if x.dim() == 4 else 1
                     bshape = [1, f] + [1] * (x.dim() - 2)
                     if k == "forward":
-                        y, ld = subj(x)
+                        y, ld = fwd(x)
                         y, ld = y.double(), ld.double()
                         if training and not model["initialized"]:
                             # data-dependent initialisation happens here and only here
@@ -184,7 +200,7 @@ def _run_case(case):
                     b = subj.bias.detach().double()
                     m_ = case["momentum"]
                     if k == "forward":
-                        y, ld = subj(x)
+                        y, ld = fwd(x)
                         y, ld = y.double(), ld.double()
                         if training:
                             mean = xd.mean(0)
@@ -248,6 +264,10 @@ def _run_case(case):
                     if bad:
                         res.fail("batchnorm_state", site, "step %d %s: %s; history %s" % (step, hist[-1], bad, hist))
                         return res
+                if bool(subj.training) != bool(training):
+                    res.fail("mode_changed_by_call", site, "step %d %s: the layer's training flag is %s after the call, it was %s before; history %s" % (
+                        step, hist[-1], subj.training, training, hist))
+                    return res
                 if case["kind"] == "actnorm" and training and k == "forward":
                     trained_fwd = True
                 if trained_fwd and switched:
